@@ -17,6 +17,8 @@
 (*          constructors, strided / column-major batches, leaf size 0 =    *)
 (*          malformed build, a dump of the ball tree's structure)          *)
 (*   badq = malformed queries (dimension 0 and dim+1)                      *)
+(* A case also carries a scale sc (1, 4, 16): the harness divides points,  *)
+(* query and radii by it, so that leaf spheres have radii below 1.         *)
 (* Point sequences: all sequences up to length SeqN, beyond that sorted    *)
 (* multisets in a zig-zag order (largest, smallest, 2nd largest, ...).     *)
 (* The bounded domain is a list of families (lattice, sizes, metrics) per  *)
@@ -32,26 +34,40 @@ CONSTANTS Tier,      \* "quick" | "thorough" | "tiny"
 VARIABLE case
 
 M4 == {"l1", "l2", "linf", "lp3"}
-Fam(dim, pc, qc, minn, maxn, seqn, ms, stride) ==
-  [dim |-> dim, pc |-> pc, qc |-> qc, minn |-> minn, maxn |-> maxn, seqn |-> seqn, ms |-> ms, stride |-> stride]
+\* scs = set of scales (powers of two): the real coordinates are pts / sc, q / sc, the real radii
+\* r8 / (8 sc) -- sub-unit data (leaf spheres of radius < 1) that is still exact in binary floating
+\* point; the relations keep working on the integer numerators (every comparison is homogeneous)
+FamS(dim, pc, qc, minn, maxn, seqn, ms, stride, scs) ==
+  [dim |-> dim, pc |-> pc, qc |-> qc, minn |-> minn, maxn |-> maxn, seqn |-> seqn, ms |-> ms, stride |-> stride,
+   scs |-> scs]
+Fam(dim, pc, qc, minn, maxn, seqn, ms, stride) == FamS(dim, pc, qc, minn, maxn, seqn, ms, stride, {1})
 Families ==
   CASE Tier = "tiny" ->
          {Fam(1, {0, 2, 4}, 0..4, 0, 3, 3, M4, 1)}
     [] Tier = "quick" ->
          {Fam(1, {0, 2, 4, 6}, -1..7, 0, 2, 2, M4, 1),               \* complete smallest sub-domain
-          Fam(1, {0, 2, 4, 6}, -1..7, 3, 6, 3, M4, 17),
-          Fam(2, {0, 2, 4}, 0..4, 0, 4, 2, M4, 131),
-          Fam(3, {0, 2}, 0..2, 0, 4, 2, M4, 127),
-          Fam(2, {0, 2, 4}, 0..4, 2, 3, 1, {"lp1", "lp2"}, 97)}
+          Fam(1, {0, 2, 4, 6}, -1..7, 3, 6, 3, M4, 19),
+          Fam(2, {0, 2, 4}, 0..4, 0, 4, 2, M4, 151),
+          Fam(3, {0, 2}, 0..2, 0, 4, 2, M4, 149),
+          Fam(2, {0, 2, 4}, 0..4, 2, 3, 1, {"lp1", "lp2"}, 97),
+          \* the same lattices divided by 4 and 16
+          FamS(1, {0, 2, 4, 6}, -1..7, 2, 6, 3, M4, 61, {4, 16}),
+          FamS(2, {0, 2, 4}, 0..4, 2, 4, 1, M4, 997, {4, 16}),
+          FamS(3, {0, 2}, 0..2, 2, 4, 1, M4, 509, {4})}
     [] Tier = "thorough" ->
          {Fam(1, {0, 2, 4, 6}, -1..7, 0, 3, 3, M4, 1),
-          Fam(1, {0, 2, 4, 6}, -1..7, 4, 6, 3, M4, 5),
-          Fam(1, {0, 2, 4, 6, 8, 10}, 0..10, 5, 7, 3, {"l2", "lp3"}, 19),
-          Fam(2, {0, 2, 4}, 0..4, 0, 4, 2, M4, 29),
-          Fam(2, {0, 2, 4}, 0..4, 5, 5, 2, M4, 53),
-          Fam(3, {0, 2}, 0..2, 0, 4, 2, M4, 23),
+          Fam(1, {0, 2, 4, 6}, -1..7, 4, 6, 3, M4, 7),
+          Fam(1, {0, 2, 4, 6, 8, 10}, 0..10, 5, 7, 3, {"l2", "lp3"}, 29),
+          Fam(2, {0, 2, 4}, 0..4, 0, 4, 2, M4, 37),
+          Fam(2, {0, 2, 4}, 0..4, 5, 5, 2, M4, 67),
+          Fam(3, {0, 2}, 0..2, 0, 4, 2, M4, 31),
           Fam(3, {0, 2}, 0..2, 5, 5, 2, M4, 47),
-          Fam(2, {0, 2, 4}, 0..4, 1, 4, 1, {"lp1", "lp2"}, 23)}
+          Fam(2, {0, 2, 4}, 0..4, 1, 4, 1, {"lp1", "lp2"}, 31),
+          FamS(1, {0, 2, 4, 6}, -1..7, 2, 6, 3, M4, 11, {4, 16}),
+          FamS(1, {0, 2, 4, 6, 8, 10}, 0..10, 5, 7, 3, {"l2", "lp3"}, 37, {16}),
+          FamS(2, {0, 2, 4}, 0..4, 2, 4, 1, M4, 173, {4, 16}),
+          FamS(3, {0, 2}, 0..2, 2, 4, 1, M4, 89, {4, 16}),
+          FamS(2, {0, 2, 4}, 0..4, 2, 4, 1, {"lp1", "lp2"}, 199, {4})}
 ZeroDim == TRUE
 
 Pow16(j) == CASE j = 0 -> 1 [] j = 1 -> 16 [] j = 2 -> 256 [] j = 3 -> 4096 [] OTHER -> 65536
@@ -63,8 +79,9 @@ ZigZag(s) == LET n == Len(s) IN [i \in 1..n |-> s[IF i % 2 = 1 THEN n + 1 - ((i 
 PointSeqs(f, n) == LET Pts == [1..f.dim -> f.pc] IN
                    IF n <= f.seqn THEN [1..n -> Pts] ELSE {ZigZag(s) : s \in Sorted(Pts, n)}
 
-Hash(P, q, m) == SumSeq([i \in 1..Len(P) |-> Code(P[i]) * (2 * i + 1)]) + 7 * Code(q) + 13 * MIdx(m) + 31 * Len(P)
-Keep(f, P, q, m) == f.stride = 1 \/ Hash(P, q, m) % f.stride = Phase % f.stride
+Hash(P, q, m, sc) == SumSeq([i \in 1..Len(P) |-> Code(P[i]) * (2 * i + 1)]) + 7 * Code(q) + 13 * MIdx(m) + 31 * Len(P)
+                      + 17 * sc
+Keep(f, P, q, m, sc) == f.stride = 1 \/ Hash(P, q, m, sc) % f.stride = Phase % f.stride
 
 -----------------------------------------------------------------------------
 (* radii *)
@@ -109,13 +126,13 @@ Sessions(n, plan) ==
           [] plan = 3 -> <<S("lin", "f64", -1, "fort"), S("kd", "f64", 2, "rows2"), S("ball", "f64", 1, "cols2"),
                            S("ball_d", "f64", 3, "rows2")>>
 
-MkCase(f, P, q, m) ==
+MkCase(f, P, q, m, sc) ==
   LET n == Len(P)
       Dim == f.dim
       dv == DistVec(m, P, q)
-      plan == (Hash(P, q, m) \div f.stride) % 4
+      plan == (Hash(P, q, m, sc) \div f.stride) % 4
   IN [kind |-> "nn",
-      inp |-> [n |-> n, dim |-> Dim, pts |-> P, q |-> q, metric |-> m,
+      inp |-> [n |-> n, dim |-> Dim, sc |-> sc, pts |-> P, q |-> q, metric |-> m,
                ks |-> [j \in 1..(n + 2) |-> j - 1],
                r8s |-> R8s(m, dv),
                badq |-> << <<>>, [i \in 1..(Dim + 1) |-> 1] >>,
@@ -124,7 +141,7 @@ MkCase(f, P, q, m) ==
 \* zero-dimensional batches: every build is malformed
 ZeroCase(n, m) ==
   [kind |-> "nn",
-   inp |-> [n |-> n, dim |-> 0, pts |-> [i \in 1..n |-> <<>>], q |-> <<>>, metric |-> m,
+   inp |-> [n |-> n, dim |-> 0, sc |-> 1, pts |-> [i \in 1..n |-> <<>>], q |-> <<>>, metric |-> m,
             ks |-> <<0, 1>>, r8s |-> <<8>>, badq |-> << <<1>> >>,
             sess |-> <<S("lin", "f64", 1, "std"), S("kd", "f64", 1, "std"), S("ball", "f64", 1, "std"),
                        S("lin", "f32", -1, "std"), S("kd", "f32", -1, "std"), S("ball", "f32", -1, "std"),
@@ -134,9 +151,9 @@ ZeroCase(n, m) ==
 
 Init ==
   \/ \E f \in Families : \E n \in f.minn..f.maxn : \E P \in PointSeqs(f, n) :
-     \E q \in [1..f.dim -> f.qc] : \E m \in f.ms :
-       /\ Keep(f, P, q, m) = TRUE       \* (= TRUE: a state predicate, not two alternative branches)
-       /\ case = MkCase(f, P, q, m)
+     \E q \in [1..f.dim -> f.qc] : \E m \in f.ms : \E sc \in f.scs :
+       /\ Keep(f, P, q, m, sc) = TRUE       \* (= TRUE: a state predicate, not two alternative branches)
+       /\ case = MkCase(f, P, q, m, sc)
   \/ /\ ZeroDim
      /\ \E n \in 0..2 : \E m \in {"l2", "linf"} : case = ZeroCase(n, m)
 
